@@ -5,6 +5,7 @@ package c09
 import (
 	"bytes"
 	"fmt"
+	"github.com/google/pprof/internal/symbolizer"
 	"io"
 	"math"
 	"math/rand"
@@ -157,7 +158,7 @@ func runCLI(c *harness.Ctx) harness.Result {
 			}
 		}
 		b[[]string{"functions", "filefunctions", "files", "lines", "addresses"}[r.Intn(5)]] = true
-		s["symbolize"] = []string{"none", "", "local", "fastlocal", "remote", "force", "demangle=full", "bogus:local", "local:demangle=none"}[r.Intn(9)]
+		s["symbolize"] = []string{"none", "", "local", "fastlocal", "remote", "force", "demangle=full", "bogus:local", "local:demangle=none", "demangle=default", "local:demangle=default", "fastlocal:Demangle=Templates", "remote:demangle=default:force", "demangle=", "none:demangle=default"}[r.Intn(15)]
 		srcs := []string{"p"}
 		lists := map[string][]string{}
 		if r.Intn(5) == 0 {
@@ -223,6 +224,11 @@ func runCLI(c *harness.Ctx) harness.Result {
 		}
 		if r.Intn(4) == 0 {
 			sesn.Obj = &binutils.Binutils{}
+			// ... and pprof's own symbolizer behind it (its -symbolize option parser, demangler and
+			// symbol-service client; the service is unreachable)
+			sesn.UI = &drv.UI{}
+			sesn.Sym = &symbolizer.Symbolizer{Obj: sesn.Obj, UI: sesn.UI, Transport: noNetwork{}}
+			c.Stat("cli_with_real_symbolizer", 1)
 			if exe := filepath.Join(os.Getenv("VERIF_BIN"), "pprof"); r.Intn(3) == 0 && !strings.HasPrefix(srcs[0], "http") {
 				if _, err := os.Stat(exe); err == nil {
 					// "pprof <binary> <profile>": an executable named before the profile
@@ -552,4 +558,10 @@ func init() {
 		},
 		MinNonTrivial: func(string) int { return 500 },
 	})
+}
+
+type noNetwork struct{}
+
+func (noNetwork) RoundTrip(req *http.Request) (*http.Response, error) {
+	return nil, fmt.Errorf("no route to %s", req.URL.Host)
 }
